@@ -8,8 +8,8 @@ PROP = dict(
                        "C20_assign_total_old_counterexample", "C20_old_crash_iff", "C20_old_agrees", "C20_pat_mutability"],
     harness_bin="c20",
     mismatch_is_violation=True,
-    rule="the full table: 40 binding forms (let, var, destructured let/var, let/var patterns with a variant payload / named variant "
-         "fields / a struct pattern / an (annotated) or-pattern, for variable plain/destructured, match binding plain/"
+    rule="the full table: 44 binding forms (let, var, destructured let/var, let/var patterns with a variant payload / named variant "
+         "fields / a struct pattern / an or-pattern (annotated and not, over tuples and over variants, also as a for pattern), for variable plain/destructured, match binding plain/"
          "variant payload, function parameter, lambda parameter, array element of a let array / of a var array / nested, struct "
          "field plain / nested / of an array element, function name; captured let / var / destructured var / for / match / "
          "function parameter / lambda parameter assigned inside a lambda, a nested lambda or a task; a nested lambda's own local; "
